@@ -13,13 +13,18 @@
                     re-read by the precedence reader as a different tree or not at all (witnesses computed in
                     the kernel; they are the recorded findings D7).
 
-   PARTIAL: (1) C02_parse_back is stated at token level - that the byte text of an operand lexes to tokens
-   forming one c_expr is checked on every generated case by the extracted lexer and reader, not proved;
-   (2) the checker is conservative for a same-operator right operand of + and * (a + (b + c)): the reader
-   accepts those modulo re-association (tolerated by the property), the theorem does not cover them. *)
-From Coq Require Import String List ZArith Bool.
+   C02_reassociation  the tolerated case: a chain of one and the same operator out of + and *, bracketed in any
+                    way by the caller (operands: the first may have the operator's own level, the others are
+                    strictly higher or get parentheses), is written as the flat chain, and that token list derives
+                    a tree with the same operands in the same order - the composed tree and the tree read back
+                    are two bracketings of one operand sequence.
+
+   PARTIAL: C02_parse_back / C02_reassociation are stated at token level - that the byte text of an operand
+   lexes to tokens forming one c_expr is checked on every generated case by the extracted lexer and reader,
+   not proved.  (AND / OR chains need no separate theorem: a nested junction is always parenthesised.) *)
+From Coq Require Import String List ZArith Bool Lia.
 From QRB Require Import Base.Bytes Model.W Model.Values Model.Compile Pg.Lexer Pg.Expr Model.XExp Model.XExpFacts
-  Model.C02Eval.
+  Model.XChain Model.C02Eval.
 Import ListNotations.
 Local Open Scope string_scope.
 
@@ -41,6 +46,21 @@ Section C02.
     forall (e : xe V) k, chk e = Some k -> Derives (abstract e) (xtoks e) k.
   Proof. exact (chk_sound V). Qed.
 
+  (* the tolerated re-association, for + and * *)
+  Theorem C02_reassociation :
+    forall op ko, (op = "+" /\ ko = L_ADD) \/ (op = "*" /\ ko = L_MUL) ->
+    forall (l r : xe V) first rest,
+      ops V op (XOp l op r) false (first :: rest) ->
+      weak V op ko first -> Forall (strict V op ko) rest ->
+      exists p, Derives p (xtoks (XOp l op r)) ko /\
+                brack V op p (map (fun x => abstract (fst x)) (first :: rest)) /\
+                brack V op (abstract (XOp l op r)) (map (fun x => abstract (fst x)) (first :: rest)).
+  Proof.
+    intros op ko [[-> ->]|[-> ->]] l r first rest H Hw Hs.
+    - exact (chain_reassociates V "+" L_ADD eq_refl eq_refl l r (first :: rest) H Hw Hs).
+    - exact (chain_reassociates V "*" L_MUL eq_refl eq_refl l r (first :: rest) H Hw Hs).
+  Qed.
+
   (* whatever the checker accepts is a well-formed member of the fragment, so C02_text applies to it *)
   Theorem C02_accepts_wf : forall (e : xe V) k, chk e = Some k -> wfx V e = true.
   Proof. exact (chk_wfx V). Qed.
@@ -55,6 +75,25 @@ Example C02_accepts :
               XIn (XOp (n "a") "+" (XAtom (EInt 1))) "NOT IN" (EExprs [EInt 1; EInt 2])] false) = Some L_AND /\
   chk (XOp (XBase (XOp (n "a") "*" (n "b"))) "+" (n "c")) = Some L_ADD.
 Proof. vm_compute. repeat split. Qed.
+
+(* non-vacuity of the chain theorem: a + ((b + c) + d), written a + b + c + d *)
+Example C02_chain_example :
+  let e := XOp (n "a") "+" (XOp (XOp (n "b") "+" (n "c")) "+" (n "d")) in
+  ops nat "+" e false [(n "a", false); (n "b", false); (n "c", true); (n "d", true)] /\
+  weak nat "+" L_ADD (n "a", false) /\
+  Forall (strict nat "+" L_ADD) [(n "b", false); (n "c", true); (n "d", true)] /\
+  chk e = None.
+Proof.
+  assert (L : forall s l r, n s <> XOp l "+" r) by (intros; discriminate).
+  repeat split.
+  - apply (o_node nat "+" (n "a") _ false [(n "a", false)] [(n "b", false); (n "c", true); (n "d", true)]).
+    + now apply o_leaf.
+    + apply (o_node nat "+" _ (n "d") true [(n "b", false); (n "c", true)] [(n "d", true)]).
+      * apply (o_node nat "+" (n "b") (n "c") false [(n "b", false)] [(n "c", true)]); now apply o_leaf.
+      * now apply o_leaf.
+  - exists L_MAX. split; vm_compute; [reflexivity|lia].
+  - repeat constructor; exists L_MAX; split; vm_compute; try reflexivity; lia.
+Qed.
 
 (* the gaps (D7): rejected by the checker, and the model's own text reads back differently *)
 Definition all_valid (_ : string) := true.
@@ -79,6 +118,8 @@ Proof. vm_compute. reflexivity. Qed.
 Print Assumptions C02_text.
 Print Assumptions C02_flat.
 Print Assumptions C02_parse_back.
+Print Assumptions C02_reassociation.
 Print Assumptions C02_accepts_wf.
+Print Assumptions C02_chain_example.
 Print Assumptions C02_accepts.
 Print Assumptions C02_gap_witnesses.
